@@ -335,7 +335,9 @@ def neighbour(cell, f, apex, perm=None):
             verts.append(list(arr(apex)))
         else:
             verts.append(shared[p[1]])
-    f2 = perm.index("a")
+    # local number of the shared facet in the new cell: the facet opposite the apex - except on an interval, whose
+    # facet k IS vertex k (FEniCS reference cell), so it is the position of the shared vertex
+    f2 = perm.index("a") if len(fv) > 1 or cell.tdim > 1 else perm.index(("f", 0))
     return ConcreteCell(cell.cellname, verts, orientation=cell.orientation), f2
 
 
